@@ -17,8 +17,31 @@ def classify(kind, msg, tags, o):
     return out
 
 
+def x_ann(chk, disagreements):
+    """X-ann: random type terms printed by the REAL metadata_to_typing under the style of every generator; inside Coq the
+    printer model gives the same text, parse_ann of that text gives the tree CPython's ast.parse gives, and that tree is
+    denote t (tools/validate_pyann.py; the theorem parse_print is about exactly these functions)."""
+    import os, re, subprocess
+    from .. import common
+    n = 900 if chk.tier == "quick" else 12000
+    wd = os.path.join(chk.workdir, "pyann")
+    os.makedirs(wd, exist_ok=True)
+    env = dict(os.environ, J2M_REPO=common.REPO, PYTHONPATH=common.REPO)
+    try:
+        p = subprocess.run([common.PY, os.path.join(common.VERIF, "tools", "validate_pyann.py"), "--n", str(n), "--seed", str(chk.seed + 1),
+                            "--jobs", "8", "--keep", wd], capture_output=True, text=True, env=env, timeout=3000)
+        out, rc = (p.stdout + p.stderr).strip(), p.returncode
+    except subprocess.TimeoutExpired:
+        out, rc = "timeout", 124
+    m = re.search(r"OK\s+(\d+) cases", out)
+    chk.views["X-ann"] = {"cases": int(m.group(1)) if m else 0, "disagreements": 0 if rc == 0 else 1, "errors": [] if rc == 0 else [out[-600:]]}
+    chk.evaluations += int(m.group(1)) if m else 0
+    if rc != 0:
+        disagreements.append({"view": "X-ann", "error": out[-1500:]})
+
+
 def run(chk, build):
-    emitprops.drive(chk, build, "Props/C04.v", ["Labels", "Limits"], emitprops.realistic_key, WANT, classify, 400, 10000)
+    emitprops.drive(chk, build, "Props/C04.v", ["Labels", "Limits"], emitprops.realistic_key, WANT, classify, 400, 10000, extra=x_ann)
 
 
 def finish(chk):
